@@ -37,6 +37,11 @@ pub struct Case {
     /// controls are not part of that trait and are skipped
     #[serde(default)]
     pub via_vec: bool,
+    /// bit i set: no processing call between control call i and the next one, so that the next control call acts
+    /// on the pending state (a ramp not yet started, a chunk size not yet used); the last one is always followed
+    /// by a processing call
+    #[serde(default)]
+    pub skip_process: u16,
 }
 
 pub struct C12;
@@ -216,6 +221,10 @@ fn run_t<T: SampleX>(c0: &Case) -> Outcome {
             o.fail(format!("twin-getters:{}", kind.name()), format!("after control call {} ({:?}) getters {:?} differ from the twin's {:?}", i, ctl, ga, gb));
             return o;
         }
+        if (c0.skip_process >> ((i - 1) % 16)) & 1 == 1 && i < c0.ctls.len() {
+            o.class("control calls back to back");
+            continue;
+        }
         let (na, nb) = (ta.steps.len(), tb.steps.len());
         a.step(i, &process, &sig, &mut ta);
         b.step(i, &process, &sig, &mut tb);
@@ -294,8 +303,8 @@ impl Property for C12 {
         sp.max_channels = 2;
         // exact stratum: dyadic original and max, where quotient and bound tests cannot disagree
         let exact = (-4i32..=4, 0i32..=4).prop_map(|(a, b)| (2f64.powi(a), 2f64.powi(b)));
-        (config_strategy(sp), any::<u64>(), proptest::collection::vec(ctl, 1..=10), prop_oneof![3 => Just(None), 1 => exact.prop_map(Some)], prop_oneof![2 => Just(None), 1 => (1.0f64..16.0).prop_map(Some)], prop_oneof![4 => Just(false), 1 => Just(true)])
-            .prop_map(|(mut cfg, seed, ctls, exact, mr, via_vec)| {
+        (config_strategy(sp), any::<u64>(), proptest::collection::vec(ctl, 1..=10), prop_oneof![3 => Just(None), 1 => exact.prop_map(Some)], prop_oneof![2 => Just(None), 1 => (1.0f64..16.0).prop_map(Some)], prop_oneof![4 => Just(false), 1 => Just(true)], prop_oneof![1 => Just(0u16), 1 => any::<u16>()])
+            .prop_map(|(mut cfg, seed, ctls, exact, mr, via_vec, skip_process)| {
                 if let Some((r, m)) = exact {
                     cfg.ratio = r;
                     cfg.max_rel = m;
@@ -305,7 +314,7 @@ impl Property for C12 {
                 while call_cost(&cfg) * 24.0 > 3e6 && cfg.chunk > 1 {
                     cfg.chunk = (cfg.chunk / 2).max(1);
                 }
-                Case { cfg, seed, ctls, via_vec }
+                Case { cfg, seed, ctls, via_vec, skip_process }
             })
             .boxed()
     }
